@@ -17,7 +17,10 @@ RULE = ("(a) controlled schedules: every object-pair and metadata-pair scenario 
         "must be empty and no mutex owned; then store_metadata + delete_object on every pid involved must complete "
         "(a wait() there would block forever and is reported). (b) fault runs: for every single call of the C13 "
         "call list an OSError is injected at each fault site in turn (one-off and persistent); afterwards the same "
-        "hygiene checks and follow-up calls run. distinct_nontrivial = distinct (scenario, interleaving) pairs + "
+        "hygiene checks and follow-up calls run. (c) fault under contention: 9 two-call scenarios on one pid / cid / "
+        "document; for each call and each of its fault sites an OSError is injected into that call while the other "
+        "call runs concurrently under the scheduler (sequential order, preemption-bounded DFS in the thorough tier, "
+        "random schedules) - a failing call must wake and not starve a waiter. distinct_nontrivial = distinct (scenario, interleaving) pairs + "
         "distinct (call, start state, fault site, errno, persistence) fault runs.")
 ASSUMPTIONS = ["every wait loop's predicate is membership in a locked list, so empty lists imply no future waiter can block",
                "the wall-clock watchdog only yields 'inconclusive'"]
@@ -51,6 +54,9 @@ def shards(tier, seed):
         out.append(("line", c, 6 if tier == "quick" else 40, 0, s))
     for c, s in zip(chunk(line_scns, n), split_seeds(seed + 84, n)):
         out.append(("line", c, 0, 6 if tier == "quick" else 80, s))
+    # (c) an I/O fault in one call WHILE another call contends for the same identifier
+    for i, s in enumerate(split_seeds(seed + 85, len(FAULT_CONC))):
+        out.append(("faultconc", i, 0 if tier == "quick" else 1, 10 if tier == "quick" else 30, s))
     try:
         from . import C13
         out += [("fault",) + a for a in C13.fault_shards(tier, seed)]
@@ -63,7 +69,67 @@ def min_required(tier):
     return {"schedules": 5000, "schedules_with_a_waiting_thread": 300, "hygiene_checks": 5000}
 
 
+FAULT_CONC = [
+    ("p3->X", [P.st("p3", "X")], [P.st("p1", "X"), P.st("p2", "X")], "object"),
+    ("p2->X", [P.st("p2", "X")], [P.tag("p1", "X"), P.dele("p2")], "object"),
+    ("p1->X", [P.st("p1", "X")], [P.st("p1", "Y"), P.dele("p1")], "object"),
+    ("p1,p2->X", [P.st("p1", "X"), P.st("p2", "X")], [P.dele("p1"), P.dele("p2")], "object"),
+    ("X-unreferenced", [P.st(None, "X")], [P.tag("p1", "X"), P.dii("X", False)], "object"),
+    ("present/bound", P.META_STARTS["present/bound"], [P.sm("f1", "v1"), P.sm("f1", "v2")], "meta"),
+    ("present/bound", P.META_STARTS["present/bound"], [P.dm(None), P.sm("f1", "v2")], "meta"),
+    ("present/bound", P.META_STARTS["present/bound"], [P.dele("p1"), P.dm(None)], "meta"),
+    ("present/unbound", P.META_STARTS["present/unbound"], [P.dm("f1"), P.dm(None)], "meta"),
+]
+
+
+def run_faultconc(idx, bound, n_random, sub_seed):
+    import errno
+    from .. import concengine as C
+    from ..common import new_scratch, rmtree, Inconclusive
+    from ..runner import ShardResult
+    from ..gen import op_shape
+    res = ShardResult()
+    rng = random.Random(sub_seed)
+    sname, start, calls, kind = FAULT_CONC[idx]
+    scn = C.Scenario(f"{sname}|" + "||".join(P.call_name(o) for o in calls) + "|+fault", start, calls, P.SPEC,
+                     P.DOCS if kind == "meta" else None, pids=["p1", "p2", "p3"] if kind == "object" else ["p1"],
+                     fmts=[None] if kind == "object" else [None, "f1", "f2", "followup"], start_class=sname)
+    scratch = new_scratch("fc")
+    try:
+        runner = C.ScenarioRunner(scn, scratch)
+        sites = set()
+        for ob, probs, wk, k in C.explore_with_faults(runner, rng, bound, n_random, rng.choice([errno.EIO, errno.ENOSPC, errno.EACCES])):
+            res.evaluations += 1
+            res.count("schedules")
+            res.count("fault_under_contention_schedules")
+            res.count("hygiene_checks")
+            if any(st_["wait"] for st_ in ob.cond_stats.values()):
+                res.count("schedules_with_a_waiting_thread")
+            sites.add((wk, k))
+            res.distinct.add(str(hash((scn.name, wk, k, tuple(ob.trace)))))
+            for symptom, detail in probs:
+                sig = {"symptom": symptom, "calls": sorted(op_shape(o) for o in scn.calls), "start": sname,
+                       "faulted_call": op_shape(scn.calls[wk]), "fault_site": (ob.fault_fired or "").split(":")[0] + ":" +
+                       "/".join((ob.fault_fired or "::").split(":")[2].split("/")[:2])}
+                wit = C.witness(runner, ob, symptom, detail)
+                wit.update(fault={"worker": wk, "site": k, "operation": ob.fault_fired})
+                if symptom in SYMPTOMS:
+                    res.violation(sig, wit)
+                else:
+                    res.foreign[symptom] = res.foreign.get(symptom, 0) + 1
+        res.count("fault_sites_under_contention", len(sites))
+        res.count("scenarios")
+        res.sample({"scenario": scn.name, "fault_sites": len(sites), "schedules": res.evaluations})
+    except Inconclusive as inc:
+        res.inconclusive.append(f"{scn.name}: {inc}")
+    finally:
+        rmtree(scratch)
+    return res
+
+
 def run_shard(kind, *args):
+    if kind == "faultconc":
+        return run_faultconc(*args)
     if kind == "line":
         scns, n_line, n_sync, sub_seed = args
         res = P.run_scenarios(scns, 0, 0, 0, sub_seed, SYMPTOMS, n_line=n_line, n_sync=n_sync, skip_dfs=True)
